@@ -541,8 +541,8 @@ func (in *Interp) visit(fr *frame, instr ssa.Instruction) cont {
 		in.monAlloc(p)
 		fr.set(instr, p)
 	case *ssa.MakeSlice:
-		n := in.concInt(fr.get(instr.Len), "make len")
-		c := in.concInt(fr.get(instr.Cap), "make cap")
+		n := in.concInt(fr.get(instr.Len), "make len in "+fr.fn.Name())
+		c := in.concInt(fr.get(instr.Cap), "make cap in "+fr.fn.Name())
 		if n < 0 || c < n || c > 1<<24 {
 			in.goPanicf("runtime error: makeslice: len out of range")
 		}
